@@ -89,6 +89,16 @@ def gen_case(rng):
     if rng.random() < 0.3:
         add("k", [m2], "constants", prefixes="constant", value=lit_array(rng, [m2], 1, 5))
         tags.add("array-constant")
+    if rng.random() < 0.35:
+        # attributes that are symbolic matrices: an array parameter and expressions of it
+        Lv = lit_array(rng, [n, m2], 1, 9)
+        add("L", [n, m2], "parameters", prefixes="parameter", value=Lv)
+        La = np.array(Lv)
+        decls.append("  Real z2[%d, %d](max = L, min = -3 * L, nominal = 2 * L + 1);" % (n, m2))
+        arrays["z2"] = {"dims": [[n, m2]], "attrs": {"max": La.tolist(), "min": (-3 * La).tolist(), "nominal": (2 * La + 1).tolist()},
+                        "list": "alg_states"}
+        eqs.append("  for i in 1:%d loop\n%s  end for;" % (n, "".join("    z2[i, %d] = x[i] + %d;\n" % (j + 1, j) for j in range(m2))))
+        tags.add("attr:symbolic-matrix-of-array-parameter")
     if rng.random() < 0.3:
         decls.append("  parameter Real pd = 1.5;")
         add("dl", [n], "alg_states")
@@ -200,7 +210,13 @@ def check(ctx, text, arrays, tags, ext):
                         want = {"value": float("nan"), "start": 0.0, "min": -np.inf, "max": np.inf, "nominal": 0.0}[a]
                     val = getattr(v, a)
                     try:
-                        g = float(ca.DM(val)) if not isinstance(val, ca.MX) else float(ca.DM(ca.evalf(val)))
+                        if isinstance(val, ca.MX) and not val.is_constant():
+                            # symbolic in the (expanded) parameters: evaluate at their declared values
+                            ps = [p_.symbol for p_ in ex.parameters]
+                            pvals = [ca.DM(np.asarray(p_.value, dtype=float)) for p_ in ex.parameters]
+                            g = float(ca.Function("a", ps, [val]).call(pvals)[0])
+                        else:
+                            g = float(ca.DM(val)) if not isinstance(val, ca.MX) else float(ca.DM(ca.evalf(val)))
                     except Exception as e:
                         ctx.violation("C18:%s:attribute-not-scalar:%s" % (feat, a), "%s.%s = %r (%r)\n%s" % (nm, a, val, e, text), dict(case, opts=opts))
                         return
